@@ -139,6 +139,10 @@ CLAIMED = {
         "technique": "stateless-classification soundness over the field access index and call graph; provenance of the hashed value at every bucket computation in the CLI's MIR (R-KEYED / R-DET)",
         "level": P + "No RuntimeOp accepted by is_stateless carries a payload written on the processing path and every mutated StreamDefinition state field is tested; each bucket index in run_simulation hashes Value::to_partition_key of the key field with a fixed-key hasher and does not depend on the event when the key is missing. Scheduling and the output multiset are not decided.",
     },
+    "C25": {
+        "technique": "sibling guard agreement on MIR: guards dominating every write of QueryState.count in the shared and the non-shared graphlet processor",
+        "level": "One clause only: the two graphlet processors between which the optimizer's sharing decision chooses update a query's trend count under the same per-query guards. The counts themselves (the property proper: equality with brute-force enumeration) are numeric and are not decided.",
+    },
     "C26": {
         "technique": "result-consumption analysis (R-LOSSY) of every non-blocking send on the cross-context data path on MIR",
         "level": "One clause only: every try_send of an event on the context data path must propagate or re-queue the rejected message; sends whose result is dropped or only logged lose the event when a bounded channel is full. Ordering and equality of outputs are not decided.",
@@ -185,6 +189,4 @@ CLAIMED = {
     },
 }
 
-NOT_APPLICABLE = {
-    "C25": "the property is the numeric value of trend counts under sharing; correctness is a combinatorial identity over runtime event sequences - no structural clause distinguishes a right count from a wrong one (DESIGN.md section 6)",
-}
+NOT_APPLICABLE = {}
